@@ -26,7 +26,7 @@ RULE = ('One case = a generated chart with contracts reading __old__, history st
         'Non-trivial = distinct (chart, k, method) where at k a delayed event was pending, a history memory differed from its '
         'default, or a live __old__ snapshot existed.')
 ASSUMPTIONS = ['context values are picklable (module-level functions, ints, lists)', 'snapshots are taken at macro-step boundaries only']
-REQUIRED_COUNTERS = ['empty_context_cases', 'pickle_snapshots_protocol_0_or_1', 'snapshots_with_running_clock', 'snapshots_compared', 'steps_compared_after_snapshot', 'snapshots_with_pending_delayed_event',
+REQUIRED_COUNTERS = ['second_generation_snapshots', 'empty_context_cases', 'pickle_snapshots_protocol_0_or_1', 'snapshots_with_running_clock', 'snapshots_compared', 'steps_compared_after_snapshot', 'snapshots_with_pending_delayed_event',
                      'snapshots_with_live_old', 'snapshots_with_history_memory', 'pickle_snapshots', 'deepcopy_snapshots',
                      'snapshots_with_bound_and_property', 'old_reads_after_restore']
 TIERS = dict(quick=dict(steps=24, ks=4, gen=dict(max_states=10, max_depth=4, max_trans=12)),
@@ -34,7 +34,7 @@ TIERS = dict(quick=dict(steps=24, ks=4, gen=dict(max_states=10, max_depth=4, max
 
 
 def plan(tier):
-    return dict(cases=800 if tier == 'quick' else 6000, shards=16, timeout=900 if tier == 'quick' else 3600)
+    return dict(cases=800 if tier == 'quick' else 4000, shards=16, timeout=900 if tier == 'quick' else 3600)
 
 
 # ---- module-level (hence picklable) helpers living in the interpreters' contexts ------------------------------------
@@ -76,12 +76,18 @@ class CtxCoder(build.Coder):
                           'shared.append(v)'] + self._sends(t['sends']))
 
     def guard(self, ch, t):
-        return 'G(%r, stepno, %r, %d)' % (self.vseed, t['id'], self.thr) if t['guard'] else None
+        g = 'G(%r, stepno, %r, %d)' % (self.vseed, t['id'], self.thr) if t['guard'] else None
+        k = int(t['id'][1:])
+        if k % 3 == 0:
+            # entry and idle stamps are part of what a snapshot has to carry
+            tp = ('idle(1)', 'after(2)', 'idle(2) or after(5)')[(k // 3) % 3]
+            g = '(%s) and (%s)' % (tp, g) if g else tp
+        return g
 
     def cond(self, ch, owner_is_transition, cid, kind):
         if kind == 'pre':
             return 'K(log, %r, time, None)' % cid
-        return 'K(log, %r, time, (__old__.v, len(__old__.nest["l"]))) and __old__.v <= v' % cid
+        return 'K(log, %r, time, (__old__.v, len(__old__.nest["l"]), after(1), idle(1), idle(2))) and __old__.v <= v' % cid
 
 
 def make_prop(sc, clock):
@@ -144,12 +150,18 @@ class World:
         return (self.it, self.peer, self.prop)
 
 
-def snapshot(world, method, protocol=None):
+def snapshot(world, method, protocol=None, generations=1):
     parts = world.parts()
     if method == 'pickle':
         it, peer, prop = pickle.loads(pickle.dumps(parts, protocol=protocol))
     else:
         it, peer, prop = copy.deepcopy(parts)
+    if generations > 1:
+        # a snapshot of the restored interpreter (second generation) is a snapshot like any other
+        if method == 'pickle':
+            it, peer, prop = pickle.loads(pickle.dumps((it, peer, prop), protocol=protocol))
+        else:
+            it, peer, prop = copy.deepcopy((it, peer, prop))
     w = World.__new__(World)
     w.it, w.peer, w.prop = it, peer, prop
     w.sc = it.statechart
@@ -322,7 +334,10 @@ def run_case(acc, rnd, tier, case):
             for op in script:
                 if op[0] == 'step' and k == kb and restored is None:
                     try:
-                        restored = snapshot(orig, method, protocol)
+                        gens = 2 if rnd.random() < 0.3 else 1
+                        if gens == 2:
+                            acc.count('second_generation_snapshots')
+                        restored = snapshot(orig, method, protocol, gens)
                     except Exception as e:      # noqa
                         acc.violation('C18:snapshot-raised', '%s of the interpreter at boundary %d raised %s: %s' %
                                       (method, kb, type(e).__name__, str(e)[:200]), dict(wit, k=kb, method=method, protocol=protocol))
